@@ -162,3 +162,33 @@ Proof.
   rewrite E. clear H E. induction ps as [|p ps IH]; [reflexivity|].
   destruct p as [b|]; cbn [map results_of beads_of flat_map app]; [f_equal|]; exact IH.
 Qed.
+
+(* ---------- the position does not depend on the overall scale of the weights (they need not be normalised):
+              multiplying every weight by a factor of magnitude at least one (so that the sum stays away from zero) ---------- *)
+
+Definition scale_w (c : Q) (l : list T) : list T := map (fun t => (c * fst t, snd t)) l.
+
+Lemma sums_scale c l :
+  sw (scale_w c l) == c * sw l /\ swx (scale_w c l) == c * swx l /\
+  swy (scale_w c l) == c * swy l /\ swz (scale_w c l) == c * swz l.
+Proof.
+  induction l as [|[w [[x y] z]] r (I0 & I1 & I2 & I3)]; cbn.
+  - repeat split; ring.
+  - fold (scale_w c r). rewrite I0, I1, I2, I3. repeat split; ring.
+Qed.
+
+Lemma scale_free_lemma c l p : 1 <= Qabs c -> mean l = RPos p ->
+  exists p', mean (scale_w c l) = RPos p' /\ peq p' p.
+Proof.
+  unfold mean. destruct (sums_scale c l) as (S0 & S1 & S2 & S3). intros Hc.
+  destruct (Qlt_le_dec (Qabs (sw l)) eps) as [|Hge]; [discriminate|]. intros [= <-].
+  assert (Hne : ~ sw l == 0).
+  { intros E. rewrite E in Hge. cbn in Hge. unfold eps, Qle in Hge. cbn in Hge. lia. }
+  assert (Hcne : ~ c == 0).
+  { intros E. rewrite E in Hc. cbn in Hc. unfold Qle in Hc. cbn in Hc. lia. }
+  destruct (Qlt_le_dec (Qabs (sw (scale_w c l))) eps) as [Hlt|_].
+  - exfalso. rewrite S0, Qabs_Qmult in Hlt. pose proof (Qabs_nonneg (sw l)) as Hn.
+    assert (Qabs (sw l) <= Qabs c * Qabs (sw l)) by nra. 
+    apply (Qlt_not_le _ _ Hlt). eapply Qle_trans; eassumption.
+  - eexists. split; [reflexivity|]. unfold peq; cbn. rewrite S0, S1, S2, S3. repeat split; field; auto.
+Qed.
